@@ -210,6 +210,9 @@ class Builder():
             return None
 
         self.preprocess()
+        if not self.stages: # everything that was included turned out to be empty
+            return None
+
         self.flatten()
         return self.stages[0]
 
@@ -247,6 +250,7 @@ class Builder():
         i = 0
         while i < len(self.stages):
             _i = i
+            _n = len(self.stages)
             with self.current_stage(i):
                 stage = self.stages[i]
                 new_stage = stage.ayns.preprocess(self)
@@ -261,7 +265,8 @@ class Builder():
                 else:
                     i += 1
 
-            assert _i != i, 'infinite loop?'
+            # note: an include of file(s) without any document replaces its stage with nothing - "i" stays but the list shrinks
+            assert _i != i or len(self.stages) < _n, 'infinite loop?'
 
     @errors.api_entry
     def flatten(self):
